@@ -94,6 +94,20 @@ Theorem C18_first_byte_preserved : forall (b : byte) (stream : c18_script) (size
 Proof. exact first_byte_preserved. Qed.
 Print Assumptions C18_first_byte_preserved.
 
+(* dispatch's peek + the wrapper, end to end, for EVERY chunking of the client's stream (zero-length reads
+   before and after the first byte included): the byte the routing rule sees is the stream's real first
+   byte, and for every sequence of Read sizes the handler reads exactly the client's stream - nothing
+   inserted in front of it, nothing lost; the peek fails only on a stream that carries no byte at all. *)
+Theorem C18_detection_byte_is_first_byte : forall (s : c18_script),
+  match c18_mux_peek s with
+  | Some (b, s') =>
+      concat s = b :: concat s' /\
+      forall sizes out r', c18_drain sizes (mkPre [b] s') = (out, r') -> out ++ c18_pre_remaining r' = concat s
+  | None => concat s = []
+  end.
+Proof. exact detection_byte_is_first_byte. Qed.
+Print Assumptions C18_detection_byte_is_first_byte.
+
 (* Every run (any interleaving of registration, close, Accept, incoming connections, first bytes and the
    code's own atomic sections; any revision flag): a connection handed to sub-listener s was routed by its
    own ASelect step, at which its first byte was b and the sub-listener registered for b's protocol
